@@ -22,7 +22,7 @@ func init() {
 	fw.Register(&fw.Property{
 		ID:    "C11",
 		Level: "fault_enumeration",
-		Rule: "ENUMERATED single cancellation points x ordinal: a writer log of 6-80 entries (long ones exceed the 32 fetch slots) is requested by a replica through Sync; the request's context is cancelled at a chosen point: {already cancelled, repl.before-slot (k-th arrival, also while all slots are held by blocked fetches), repl.after-dequeue, repl.before-fetch, mid-fetch (remote block fetch held by the gate, then cancel), repl.after-fetch, repl.before-done, merge.after-join, deadline expiry, injected fetch error at the k-th remote fetch}; 1-3 aborted requests in sequence or overlapping (pairs sampled), and sequences of 40 aborted requests at one point (more than the 32 fetch slots), then a final uncancelled request for the same or newer heads. " +
+		Rule: "ENUMERATED single cancellation points x ordinal: a writer log of 6-80 entries (long ones exceed the 32 fetch slots) is requested by a replica through Sync; the request's context is cancelled at a chosen point: {already cancelled, repl.before-slot (k-th arrival, also while all slots are held by blocked fetches), repl.after-dequeue, repl.before-fetch, mid-fetch (remote block fetch held by the gate, then cancel), repl.after-fetch, repl.before-done, merge.after-join, deadline expiry, injected fetch error at the k-th remote fetch}; 1-3 aborted requests in sequence or overlapping (pairs sampled), and sequences of 40 aborted requests at one point (more than the 32 fetch slots), then a final uncancelled request for the same or newer heads. LOAD requests: a persisted log of 6-80 entries (one head, or a local and a replicated head) is reopened with an entry codec (CreateDBOptions.IO) that, at the k-th entry read of the request, cancels it / fails that read / fails that block for the rest of the request, or the request carries a 50-450 us deadline; 1-3 aborted Load(-1) calls, optionally newer entries persisted through a sibling handle, then a final uncancelled Load(-1). " +
 			"distinct = (log length, point, ordinal, number and overlap of aborted requests, newer-heads flag, store type); non-trivial = the cancellation point was actually reached with the request still running (arrivals observed) and at least one entry was still missing when the final request started",
 		Assumptions: []string{"cancellation granularity is the hook points plus the block fetch", "the final request's blocks are fetchable (links up, no fault)"},
 		Cases:       c11Cases,
@@ -30,7 +30,7 @@ func init() {
 		MinDistinct: map[string]int{"quick": 25, "thorough": 150},
 		Batch:       8,
 		CaseTimeout: 180 * time.Second,
-		Explain:     "oracle: after the final uncancelled Sync and rest, the replica holds the full closure (over next) of the final heads; negative verdict only at confirmed rest.",
+		Explain:     "oracle: after the final uncancelled Sync and rest, the replica holds the full closure (over next) of the final heads; negative verdict only at confirmed rest. Load family: after the final Load the log holds every persisted entry and shows the pre-restart state.",
 	})
 }
 
@@ -87,6 +87,8 @@ func c11Cases(tier string, seed int64) []fw.Case {
 		}
 		add(map[string]interface{}{"point": pt, "len": n, "k": 1 + rng.Intn(minInt(n, 10)), "aborts": 2 + rng.Intn(2), "overlap": rng.Intn(2) == 0, "point2": c11Points[rng.Intn(len(c11Points))], "newer": rng.Intn(2) == 0, "type": storeTypes[idx%3]})
 	}
+	// load requests (Store.Load from the local cache) aborted part-way
+	out = append(out, c11LoadCases(tier, rng, &idx)...)
 	return out
 }
 
@@ -243,6 +245,9 @@ func (ctl *c11Ctl) releaseAll() {
 }
 
 func c11Run(c fw.Case) fw.Verdict {
+	if c.Kind == "load" {
+		return c11LoadRun(c)
+	}
 	e := NewEnv()
 	defer e.Close()
 	v := fw.Verdict{}
